@@ -79,7 +79,7 @@ def cases(rng, tier, shard, nshards, ctx):
     from vt.props import c17_alias
     for i in range(NCASES[tier] // nshards):
         yield dict(prog=R.Gen(rng).program())
-        if i % 4 == 0:
+        if i % 4 == 0 and not os.environ.get('VERIF_C17_NOALIAS'):
             yield dict(alias=c17_alias.gen(rng))
 
 
@@ -269,7 +269,7 @@ def judge(prog, obs, with_extra, devs, label):
         return exp
     # ---- deviation: is it exactly what a set of recorded defects produces?
     for k in range(1, len(R.ALL_FLAGS) + 1):
-        for S in itertools.combinations(R.ALL_FLAGS, k):
+        for S in itertools.combinations(flag_order(), k):
             tw = R.run_model(prog, frozenset(S), with_extra)
             if matches(obs, tw):
                 for key in sorted({R.key_of(f) for f in S}):
@@ -290,6 +290,25 @@ def judge(prog, obs, with_extra, devs, label):
         for mech, detail in diff_nodes(good, exp['env'])[:3]:
             devs.append(dev(mech, dict(variant=label, detail=detail)))
     return exp
+
+
+_FLAG_ORDER = []
+
+
+def flag_order():
+    """twins of still-open findings are tried before twins of findings that were repaired in /repo: when two single
+    mechanisms would both reproduce an observation, a repaired one must not be blamed"""
+    if not _FLAG_ORDER:
+        fixed = set()
+        try:
+            from vt.core import HERE
+            for e in json.load(open(os.path.join(HERE, 'known_findings.json')))['findings']:
+                if e.get('status') == 'fixed':
+                    fixed.add(e['key'])
+        except Exception:
+            pass
+        _FLAG_ORDER.extend(sorted(R.ALL_FLAGS, key=lambda f: (R.key_of(f) in fixed, R.ALL_FLAGS.index(f))))
+    return _FLAG_ORDER
 
 
 def describe(obs):
